@@ -108,24 +108,25 @@ impl Debug for Record<'_> {
 }
 
 /// Splits compressed LDM record data into individual records. Will omit the record size prefix from
-/// each record.
+/// each record. If the data ends before a record's declared size (e.g. a truncated download), the
+/// final record holds the bytes that are available; trailing bytes too short to hold a record size
+/// prefix are ignored.
 pub fn split_compressed_records(data: &[u8]) -> Vec<Record> {
     let mut records = Vec::new();
 
     let mut position = 0;
-    loop {
-        if position >= data.len() {
-            break;
-        }
-
+    while let Some(size_prefix) = data.get(position..position + 4) {
         let mut record_size = [0; 4];
-        record_size.copy_from_slice(&data[position..position + 4]);
+        record_size.copy_from_slice(size_prefix);
         let record_size = i32::from_be_bytes(record_size).unsigned_abs() as usize;
 
-        records.push(Record::from_slice(
-            &data[position..position + record_size + 4],
-        ));
-        position += record_size + 4;
+        let end = position
+            .saturating_add(4)
+            .saturating_add(record_size)
+            .min(data.len());
+
+        records.push(Record::from_slice(&data[position..end]));
+        position = end;
     }
 
     records
